@@ -21,7 +21,7 @@ pub enum Q { All, Sel(u64), Cat(i64) }
 
 impl Q {
     fn matches(&self, d: &MDoc) -> bool {
-        match self { Q::All => true, Q::Sel(v) => d[Fd::Sel.id()].contains(&(*v as i64)), Q::Cat(c) => d[Fd::Cat.id()].contains(c) }
+        !is_deleted(d) && match self { Q::All => true, Q::Sel(v) => d[Fd::Sel.id()].contains(&(*v as i64)), Q::Cat(c) => d[Fd::Cat.id()].contains(c) }
     }
     fn build(&self, schema: &Schema) -> Box<dyn Query> {
         match self {
@@ -59,6 +59,10 @@ pub fn build_index(docs: &[MDoc], parts: &[Vec<usize>]) -> Index {
             let d = TantivyDocument::parse_json(&schema, &doc_to_json(&docs[i]).to_string()).unwrap();
             w.add_document(d).unwrap();
         }
+        w.commit().unwrap();
+    }
+    if docs.iter().any(is_deleted) {
+        w.delete_term(Term::from_field_u64(schema.get_field("sel").unwrap(), DELETED as u64));
         w.commit().unwrap();
     }
     drop(w);
@@ -150,7 +154,7 @@ fn may_truncate(nodes: &[Node], docs: &[MDoc], parts: &[Vec<usize>], q: Q, out: 
 }
 
 fn has_count_ordered_terms(nodes: &[Node]) -> bool {
-    nodes.iter().any(|n| matches!(&n.agg, Agg::Terms { order, .. } if matches!(order, None | Some(TOrd::CountDesc) | Some(TOrd::CountAsc))) || has_count_ordered_terms(&n.subs))
+    nodes.iter().any(|n| matches!(&n.agg, Agg::Terms { order, .. } if n.opt.sub_order.is_some() || matches!(order, None | Some(TOrd::CountDesc) | Some(TOrd::CountAsc))) || has_count_ordered_terms(&n.subs))
 }
 
 pub struct Corpus {
@@ -193,6 +197,7 @@ fn key_of(whr: &str, nodes: &[Node]) -> String {
         Some(Agg::Hist { .. }) => "histogram".into(),
         Some(Agg::Range { .. }) => "range".into(),
         Some(Agg::Filter { .. }) => "filter".into(),
+        Some(Agg::Composite { .. }) => "composite".into(),
         None => "result".into(),
     };
     format!("C14:{kind}-differs-from-direct-computation")
@@ -207,6 +212,10 @@ fn case_json(c: &CaseIn, parts: &[Vec<usize>], what: &str) -> Value {
 
 /// oracle (a) on one real result; returns the canonical result when it could be canonicalised
 fn judge_real(ctx: &mut Ctx, c: &CaseIn, parts: &[Vec<usize>], out: &Out, specs: &Specs, how: &str) -> Option<Vec<CR>> {
+    if parts.iter().any(|p| !p.is_empty() && p.iter().all(|&i| is_deleted(&c.docs[i]))) {
+        ctx.report.count("skipped:segment-with-only-deleted-documents");
+        return None;
+    }
     let no_segments = parts.iter().all(|p| p.is_empty());
     let srs = if no_segments { &specs.absent } else { &specs.base };
     let v = match out {
@@ -219,6 +228,10 @@ fn judge_real(ctx: &mut Ctx, c: &CaseIn, parts: &[Vec<usize>], out: &Out, specs:
         }
         Out::Panic(msg) => {
             let dup = msg.contains("fetch_block requires docs sorted") && specs.alts[0] != specs.base;
+            if msg.contains("composite/collector.rs") && msg.contains("index out of bounds") && nested_composite(c.nodes, false) {
+                ctx.report.violation("oracle", "C14:composite-sub-aggregation-panics-on-unvisited-parent-bucket", format!("{how}: aggregation panicked: {msg} — a composite below another bucket aggregation is asked for the result of a parent bucket that received no document (SegmentCompositeCollector::add_intermediate_aggregation_result indexes parent_buckets without prepare_max_bucket)"), case_json(c, parts, "final"));
+                return None;
+            }
             ctx.report.violation("oracle", if dup { "C14:histogram-range-doc-count-counts-values" } else { "C14:panic" },
                 format!("{how}: aggregation panicked: {msg}{}", if dup { " — a histogram / range bucket got the same document twice (two values of a multi-valued document in one bucket) and passed it twice to its sub-aggregation" } else { "" }), case_json(c, parts, "final"));
             return None;
@@ -235,39 +248,45 @@ fn judge_real(ctx: &mut Ctx, c: &CaseIn, parts: &[Vec<usize>], out: &Out, specs:
     let mut mt = vec![];
     may_truncate(c.nodes, c.docs, parts, c.q, &mut mt);
     if !mt.is_empty() { ctx.report.count("terms:segment-truncation-possible"); }
-    let mut cx = CmpCtx { no_segments, may_truncate: mt.clone(), skip_subs_at: vec![], notes: vec![] };
-    if let Err((whr, what)) = compare(c.nodes, &crs, srs, &mut cx) {
+    let mut cx = CmpCtx { no_segments, may_truncate: mt.clone(), skip_subs_at: vec![], lenient_empty_composite: false, notes: vec![] };
+    for ti in 0..c.nodes.len() {
+    let (tn, tc) = (&c.nodes[ti..ti + 1], &crs[ti..ti + 1]);
+    if let Err((whr, what)) = compare(tn, tc, &srs[ti..ti + 1], &mut cx) {
         // attribution: does the failure disappear under exactly one of the recorded deviations?
         let mut explained = None;
         if !no_segments {
             for (i, alt) in specs.alts.iter().enumerate() {
-                let mut cx2 = CmpCtx { no_segments, may_truncate: mt.clone(), skip_subs_at: vec![], notes: vec![] };
-                if alt != &specs.base && compare(c.nodes, &crs, alt, &mut cx2).is_ok() { explained = Some(i); break; }
+                let mut cx2 = CmpCtx { no_segments, may_truncate: mt.clone(), skip_subs_at: vec![], lenient_empty_composite: false, notes: vec![] };
+                if alt[ti] != specs.base[ti] && compare(tn, tc, &alt[ti..ti + 1], &mut cx2).is_ok() { explained = Some(i); break; }
             }
         }
-        if explained.is_none() && !no_segments && specs.alts[0] != specs.base {
+        if explained.is_none() && !no_segments && specs.alts[0][ti] != specs.base[ti] {
             // per-value counting whose effect on the sub-aggregations differs by kind (some
             // collectors deduplicate the repeated document, some do not): keys and counts of
             // the affected histogram / range nodes must equal the per-value counts, their
             // sub-results are not compared
             let mut dup = vec![];
-            dup_nodes(c.nodes, &specs.base, &specs.alts[0], &mut dup);
+            dup_nodes(tn, &specs.base[ti..ti + 1], &specs.alts[0][ti..ti + 1], &mut dup);
             for (i, alt) in [(0usize, &specs.alts[0]), (2usize, &specs.alts[2])] {
-                let mut cx3 = CmpCtx { no_segments, may_truncate: mt.clone(), skip_subs_at: dup.clone(), notes: vec![] };
-                if compare(c.nodes, &crs, alt, &mut cx3).is_ok() { explained = Some(i); break; }
+                let mut cx3 = CmpCtx { no_segments, may_truncate: mt.clone(), skip_subs_at: dup.clone(), lenient_empty_composite: composite_below_mdc0_terms(c.nodes, false), notes: vec![] };
+                if compare(tn, tc, &alt[ti..ti + 1], &mut cx3).is_ok() { explained = Some(i); break; }
             }
         }
         let missing_sig = metric_missing_signature(c.nodes, c.docs, parts, &whr);
         match explained {
+            Some(0) if key_of(&whr, c.nodes).contains("composite") => ctx.report.violation("oracle", "C14:composite-counts-repeated-values", format!("{how}: at {whr}: {what} — equals the count per combination of VALUES: a document with a repeated value (or two values in one histogram source bucket) is counted once per repetition"), case_json(c, parts, "final")),
             Some(0) => ctx.report.violation("oracle", "C14:histogram-range-doc-count-counts-values", format!("{how}: at {whr}: {what} — equals the per-value count (a multi-valued document with two values in one bucket is counted twice)"), case_json(c, parts, "final")),
             Some(1) => ctx.report.violation("oracle", "C14:terms-key-order-of-rendered-keys", format!("{how}: at {whr}: {what} — equals the order of the rendered keys (ip / date keys compared as strings, integral f64 keys before fractional ones) instead of the column order"), case_json(c, parts, "final")),
             Some(_) => {
                 ctx.report.violation("oracle", "C14:histogram-range-doc-count-counts-values", format!("{how}: at {whr}: {what} — explained by per-value counting together with rendered key order"), case_json(c, parts, "final"));
                 ctx.report.violation("oracle", "C14:terms-key-order-of-rendered-keys", format!("{how}: at {whr}: {what} — explained by per-value counting together with rendered key order"), case_json(c, parts, "final"));
             }
+            None if tophits_flush_signature(c.nodes, &whr, c.docs.iter().filter(|d| c.q.matches(d)).count()) => ctx.report.violation("oracle", "C14:top-hits-lost-after-intermediate-flush", format!("{how}: at {whr}: {what} — top_hits below a bucket aggregation over >= 2048 collected documents: the sub-aggregation buffer is flushed in batches and TopHitsSegmentCollector::prepare_max_bucket resizes (shrinks) its bucket vector to the current batch's highest bucket id"), case_json(c, parts, "final")),
+            None if what.contains("composite buckets []") && composite_below_mdc0_terms(c.nodes, false) => ctx.report.violation("oracle", "C14:composite-lost-when-merged-into-empty-from-req", format!("{how}: at {whr}: {what} — the composite sits below a terms aggregation with min_doc_count = 0: a zero-count term of one segment carries `empty_from_req(Composite)` (target_size 0); merging another segment's buckets INTO it trims them to 0"), case_json(c, parts, "final")),
             None if missing_sig => ctx.report.violation("oracle", "C14:metric-missing-cast-to-u64-in-segment-without-column", format!("{how}: at {whr}: {what} — the metric has a negative / fractional `missing` and a segment holds no value of the field (the column is absent there and `missing` is converted as u64)"), case_json(c, parts, "final")),
             None => ctx.report.violation("oracle", &key_of(&whr, c.nodes), format!("{how}: at {whr}: {what}"), case_json(c, parts, "final")),
         }
+    }
     }
     for n in cx.notes { ctx.report.count(&format!("checked:{n}")); }
     Some(crs)
@@ -310,6 +329,10 @@ fn dup_nodes(nodes: &[Node], base: &[SR], pv: &[SR], out: &mut Vec<String>) {
             }
             (SR::Terms { all: ba, .. }, SR::Terms { all: pa, .. }) => for x in ba { if let Some(y) = pa.iter().find(|y| y.0 == x.0) { dup_nodes(&n.subs, &x.2, &y.2, out); } },
             (SR::Filter(_, bs), SR::Filter(_, ps)) => dup_nodes(&n.subs, bs, ps, out),
+            (SR::Comp { all: ba, .. }, SR::Comp { all: pa, .. }) => {
+                if ba.len() != pa.len() || ba.iter().zip(pa).any(|(x, y)| x.0 != y.0 || x.1 != y.1) { out.push(n.name.clone()); }
+                for x in ba { if let Some(y) = pa.iter().find(|y| y.0 == x.0) { dup_nodes(&n.subs, &x.2, &y.2, out); } }
+            }
             _ => {}
         }
     }
@@ -321,11 +344,34 @@ fn any_metric_missing_signature(nodes: &[Node], docs: &[MDoc], parts: &[Vec<usiz
 
 fn no_count_cut(srs: &[SR]) -> bool {
     srs.iter().all(|s| match s {
-        SR::Terms { all, size, order, .. } => (!matches!(order, TOrd::CountDesc | TOrd::CountAsc) || all.len() <= *size) && all.iter().all(|b| no_count_cut(&b.2)),
+        SR::Terms { all, size, order, subkey, .. } => ((subkey.is_none() && !matches!(order, TOrd::CountDesc | TOrd::CountAsc)) || all.len() <= *size) && all.iter().all(|b| no_count_cut(&b.2)),
         SR::List(bs, _) => bs.iter().all(|b| no_count_cut(&b.2)),
         SR::Filter(_, s) => no_count_cut(s),
+        SR::Comp { all, .. } => all.iter().all(|b| no_count_cut(&b.2)),
         _ => true,
     })
+}
+
+/// the failing node is a top_hits below a bucket aggregation and at least FLUSH_THRESHOLD (2048)
+/// documents are collected, so that the buffered sub-aggregation is flushed more than once
+fn tophits_flush_signature(nodes: &[Node], whr: &str, matching: usize) -> bool {
+    fn find<'a>(nodes: &'a [Node], name: &str) -> Option<&'a Node> {
+        for n in nodes { if n.name == name { return Some(n); } if let Some(x) = find(&n.subs, name) { return Some(x); } }
+        None
+    }
+    let names: Vec<&str> = whr.split('>').filter(|s| s.starts_with('a')).collect();
+    let last = names.last().cloned().unwrap_or("");
+    names.len() >= 2 && matching >= 2048 && matches!(find(nodes, last).map(|n| &n.agg), Some(Agg::Metric { kind: MK::TopHits, .. }))
+}
+
+/// the request has a composite aggregation below a terms aggregation with `min_doc_count: 0`
+fn composite_below_mdc0_terms(nodes: &[Node], below: bool) -> bool {
+    nodes.iter().any(|n| (below && matches!(n.agg, Agg::Composite { .. })) || composite_below_mdc0_terms(&n.subs, below || matches!(n.agg, Agg::Terms { mdc: Some(0), .. })))
+}
+
+/// the request has a composite aggregation below another bucket aggregation
+fn nested_composite(nodes: &[Node], below_bucket: bool) -> bool {
+    nodes.iter().any(|n| (below_bucket && matches!(n.agg, Agg::Composite { .. })) || nested_composite(&n.subs, below_bucket || !matches!(n.agg, Agg::Metric { .. })))
 }
 
 fn range_absent_column_signature(nodes: &[Node], docs: &[MDoc], parts: &[Vec<usize>]) -> bool {
@@ -415,7 +461,8 @@ pub fn check_request(ctx: &mut Ctx, rng: &mut Rng, corpus: &Corpus, nodes: &[Nod
     if let Some(e) = fruit_err {
         let dup = e.contains("fetch_block requires docs sorted") && specs.alts[0] != specs.base;
         let absent = e.contains("Overlapping ranges") && range_absent_column_signature(nodes, &corpus.docs, sparts);
-        ctx.report.violation("oracle", if dup { "C14:histogram-range-doc-count-counts-values" } else if absent { "C14:metric-missing-cast-to-u64-in-segment-without-column" } else { "C14:valid-request-rejected" }, format!("DistributedAggregationCollector failed: {e}"), case_json(&c, sparts, "distributed"));
+        let comp = e.contains("composite/collector.rs") && e.contains("index out of bounds") && nested_composite(nodes, false);
+        ctx.report.violation("oracle", if comp { "C14:composite-sub-aggregation-panics-on-unvisited-parent-bucket" } else if dup { "C14:histogram-range-doc-count-counts-values" } else if absent { "C14:metric-missing-cast-to-u64-in-segment-without-column" } else { "C14:valid-request-rejected" }, format!("DistributedAggregationCollector failed: {e}"), case_json(&c, sparts, "distributed"));
     } else {
         for round in 0..3 {
             let serialise = round > 0;
@@ -444,8 +491,10 @@ pub fn check_request(ctx: &mut Ctx, rng: &mut Rng, corpus: &Corpus, nodes: &[Nod
         for (i, other) in normed.iter().enumerate() {
             if let Err(e) = same_result(&first, other) {
                 let key = if any_metric_missing_signature(nodes, &corpus.docs, &finals[i + 1].2) || any_metric_missing_signature(nodes, &corpus.docs, &finals[0].2) { "C14:metric-missing-cast-to-u64-in-segment-without-column" }
+                    else if e.contains("composite") && composite_below_mdc0_terms(nodes, false) { "C14:composite-lost-when-merged-into-empty-from-req" }
+                    else if e.contains("top_hits") && matching.len() >= 2048 { "C14:top-hits-lost-after-intermediate-flush" }
                     else if specs.alts[0] != specs.base { "C14:histogram-range-doc-count-counts-values" }
-                    else if has_count_ordered_terms(nodes) && e.contains("buckets") && !no_count_cut(&specs.base) { "C14:terms-count-ties-partition-dependent" } else { "C14:result-depends-on-partition" };
+                    else if has_count_ordered_terms(nodes) && (e.contains("buckets") || e.contains("sum_other")) && !no_count_cut(&specs.base) { "C14:terms-count-ties-partition-dependent" } else { "C14:result-depends-on-partition" };
                 ctx.report.violation("oracle", key, format!("same documents, {} vs {}: {e}", finals[0].0, finals[i + 1].0), case_json(&c, &finals[i + 1].2, "partition"));
                 break;
             }
@@ -467,8 +516,13 @@ fn count_kinds(ctx: &mut Ctx, nodes: &[Node]) {
             Agg::Hist { field, date_hist, hard, ext, offset, mdc, .. } => format!("agg:{}:{}{}{}{}{}", if *date_hist { "date_histogram" } else { "histogram" }, field.name(), if hard.is_some() { "+hard" } else { "" }, if ext.is_some() { "+ext" } else { "" }, if offset.is_some() { "+offset" } else { "" }, if mdc.unwrap_or(0) > 0 { "+mdc" } else { "" }),
             Agg::Range { field, .. } => format!("agg:range:{}", field.name()),
             Agg::Filter { field, .. } => format!("agg:filter:{}", field.name()),
+            Agg::Composite { sources, .. } => format!("agg:composite:{}", sources.iter().map(|c| format!("{}{}", c.field.name(), if c.interval.is_some() { "-hist" } else { "" })).collect::<Vec<_>>().join("+")),
         };
         ctx.report.count(&k);
+        if n.opt.keyed && matches!(n.agg, Agg::Hist { .. } | Agg::Range { .. }) { ctx.report.count("opt:keyed"); }
+        if n.opt.include.is_some() { ctx.report.count("opt:terms-include"); }
+        if n.opt.exclude.is_some() { ctx.report.count("opt:terms-exclude"); }
+        if n.opt.sub_order.is_some() { ctx.report.count("opt:terms-order-by-sub-aggregation"); }
         count_kinds(ctx, &n.subs);
     }
 }
@@ -548,6 +602,7 @@ fn count_cr_buckets(crs: &[CR]) -> u64 {
         CR::Terms { buckets, .. } => buckets.iter().map(|b| 1 + count_cr_buckets(&b.2)).sum(),
         CR::List(bs) => bs.iter().map(|b| 1 + count_cr_buckets(&b.2)).sum(),
         CR::Filter(_, s) => count_cr_buckets(s),
+        CR::Comp(bs) => bs.iter().map(|b| 1 + count_cr_buckets(&b.2)).sum(),
         _ => 0,
     }).sum()
 }
@@ -590,6 +645,16 @@ fn smaller_requests(nodes: &[Node]) -> Vec<Vec<Node>> {
     out
 }
 
+/// drop an order-by-sub-aggregation whose target is no longer a child
+fn sanitize(nodes: &mut [Node]) {
+    for n in nodes.iter_mut() {
+        if let Some((name, _, _)) = &n.opt.sub_order {
+            if !n.subs.iter().any(|c| &c.name == name) { n.opt.sub_order = None; }
+        }
+        sanitize(&mut n.subs);
+    }
+}
+
 /// delta debugging over documents, values and request nodes, keeping a violation with `key`
 fn shrink(ctx: &mut Ctx, case: &Value, key: &str) -> Option<(Value, String)> {
     let mut docs: Vec<MDoc> = serde_json::from_value(case["docs"].clone()).ok()?;
@@ -602,7 +667,8 @@ fn shrink(ctx: &mut Ctx, case: &Value, key: &str) -> Option<(Value, String)> {
     let mut progress = true;
     while progress && trials < 400 {
         progress = false;
-        for cand in smaller_requests(&nodes) {
+        for mut cand in smaller_requests(&nodes) {
+            sanitize(&mut cand);
             trials += 1;
             if let Some(v) = run_case(ctx, &docs, &cand, q, &parts, limits).into_iter().find(|v| v.key == key) { nodes = cand; what = v.what; progress = true; break; }
         }
@@ -647,6 +713,7 @@ fn shrink_violations(ctx: &mut Ctx) {
         if seen.contains(&key) || seen.len() >= limit { continue; }
         seen.push(key.clone());
         let case = ctx.report.violations[i].case.clone();
+        if case["docs"].as_array().map(|d| d.len()).unwrap_or(0) > 600 { continue; }
         if let Some((c, what)) = shrink(ctx, &case, &key) {
             ctx.report.violations[i].case = c;
             ctx.report.violations[i].what = format!("[minimised] {what}");
@@ -668,6 +735,29 @@ fn hist_width_ok(nodes: &[Node], docs: &[MDoc]) -> bool {
         };
         ok && hist_width_ok(&n.subs, docs)
     })
+}
+
+/// hand-written corpus: 2100 documents so that the sub-aggregation buffer of a histogram is
+/// flushed twice, the last batch touching only the first bucket
+fn probe_tophits_flush(ctx: &mut Ctx) {
+    let mut docs: Vec<MDoc> = vec![];
+    for i in 0..2100usize {
+        let mut d: MDoc = vec![vec![]; NF];
+        d[Fd::U.id()] = vec![if i < 2000 { (i % 10) as i64 * 10 } else { 0 }];
+        d[Fd::Uid.id()] = vec![i as i64];
+        d[Fd::Sel.id()] = vec![0];
+        docs.push(d);
+    }
+    let nodes = vec![Node { name: "a1".into(), agg: Agg::Hist { field: Fd::U, interval: 10, offset: None, mdc: Some(1), hard: None, ext: None, date_hist: false },
+        subs: vec![Node { name: "a2".into(), agg: Agg::Metric { kind: MK::TopHits, field: Fd::Uid, missing: None, desc: true, k: 1 }, subs: vec![], opt: Opt::default() }], opt: Opt::default() }];
+    let all: Vec<usize> = (0..docs.len()).collect();
+    let halves = vec![(0..1000).collect::<Vec<usize>>(), (1000..2100).collect()];
+    let segs = vec![(vec![all.clone()], build_index(&docs, &[all.clone()])), (halves.clone(), build_index(&docs, &halves))];
+    let idxs = vec![build_index(&docs, &[all.clone()])];
+    let corpus = Corpus { docs, segs, split: (vec![all], idxs) };
+    let mut rng = Rng::new(1);
+    ctx.report.count("probe:top-hits-two-flushes");
+    check_request(ctx, &mut rng, &corpus, &nodes, Q::All);
 }
 
 fn gen_query(rng: &mut Rng) -> Q {
@@ -719,6 +809,7 @@ pub fn run(ctx: &mut Ctx) {
             ctx.report.violation("model", "C14:request-defaults-differ", format!("lean (from Gen) {m} vs harness / DEFAULT_BUCKET_LIMIT {mine}"), json!({"kind": "defaults"}));
         }
     }
+    probe_tophits_flush(ctx);
     let corpora = ctx.budget(60, 2000);
     let reqs_per = ctx.budget(7, 12);
     for ci in 0..corpora {
@@ -728,6 +819,7 @@ pub fn run(ctx: &mut Ctx) {
         ctx.report.count(&format!("corpus:kw-cardinality:{}", prof.kw_card));
         ctx.report.count(&format!("corpus:multi-valued-p{}", prof.multi));
         ctx.report.count(&format!("corpus:missing-p{}", prof.missing));
+        ctx.report.count(if prof.deleted > 0 { "corpus:with-deleted-documents" } else { "corpus:no-deletes" });
         let nseg = 1 + (ci as usize % 6).max(1).min(if ctx.thorough() { 6 } else { 4 });
         let corpus = build_corpus(&mut rng, docs, nseg);
         for ri in 0..reqs_per {
